@@ -35,7 +35,10 @@ def dump_option_value(value, json_style=False):
     if isinstance(value, str):
         if json_style:
             return json.dumps(value, ensure_ascii=False)
-        return repr(value)
+        # quoting as repr() chooses it, but without repr's escapes for characters Python calls non-printable
+        # (\xa0, \t, \n ...): no parser reads those back, the characters themselves are read
+        quote = '"' if "'" in value and '"' not in value else "'"
+        return quote + value.replace('\\', '\\\\').replace(quote, '\\' + quote) + quote
     return str(value)
 
 
